@@ -163,6 +163,7 @@ struct Instance {
   Tree tree;
   std::vector<std::unique_ptr<DynPorts>> tabs;        // by table id (nullptr if unused)
   std::vector<std::vector<std::unique_ptr<char[]>>> metas;   // metadata blocks in exact-size heap blocks (ASan sees over-reads)
+  std::vector<std::pair<std::string, const char *>> shared_meta;
   std::vector<Seen> seen;
   bool record = true;
   bool built_hashfail[9] = {false};
@@ -202,12 +203,19 @@ struct Instance {
       std::vector<rtosc::Port> v;
       for (size_t i = 0; i < pt_.ports.size(); i++) {
         const PPort &pp = pt_.ports[i];
-        metas[(size_t)id].emplace_back(new char[pp.meta.size() + 1]);
-        memcpy(metas[(size_t)id].back().get(), pp.meta.data(), pp.meta.size());
-        metas[(size_t)id].back().get()[pp.meta.size()] = '\0';   // block = entries + terminating NUL
+        // ports with byte-identical metadata share one block, in whatever table they are (compilers merge equal literals)
+        const char *block = nullptr;
+        for (auto &kv : shared_meta) if (kv.first == pp.meta) block = kv.second;
+        if (!block) {
+          metas[(size_t)id].emplace_back(new char[pp.meta.size() + 1]);
+          memcpy(metas[(size_t)id].back().get(), pp.meta.data(), pp.meta.size());
+          metas[(size_t)id].back().get()[pp.meta.size()] = '\0';   // block = entries + terminating NUL
+          block = metas[(size_t)id].back().get();
+          shared_meta.emplace_back(pp.meta, block);
+        }
         rtosc::Port p;
         p.name = pp.name.c_str();
-        p.metadata = metas[(size_t)id].back().get();
+        p.metadata = block;
         int level = table_level(id);
         if (pp.subtree() && level < 2) {
           int child = table_id(level + 1, child_variant(pp.kind));
